@@ -57,7 +57,7 @@ type c13case struct {
 }
 
 func RunC13(c *lib.Ctx) {
-	c.Rule = "cases = (a) every sampled genuine membership answer (event, query version) and incremental answer (i,j) of seeded logs: encode to the public JSON form, decode, compare every field and the verification verdict on the authentic snapshot and on three perturbed ones plus a wrong digest; (b) synthetic history audit paths with indexes up to 2^63-1 and heights up to 64 through Serialize/ParseAuditPath; (c) snapshots, signed snapshots and batches with boundary contents through their JSON codecs; (d) replicated add-commands (0..10^4 digests, odd lengths) and gossip messages (all TTL signs, nil/empty/large payload, From set/unset) through their binary codecs; (e) genuine answers fetched and decoded by the real HTTP client (two construction paths) and verified by 8 goroutines at once, each on its own decoded proofs: verdicts must equal the one-at-a-time verdicts; non-trivial = object with at least one non-zero field; distinct by (kind, shape)."
+	c.Rule = "cases = (a) every sampled genuine membership answer (event, query version; one in six with a query version beyond the last one, which the server answers for the last version) and incremental answer (i,j) of seeded logs: encode to the public JSON form, decode, compare every field and the verification verdict on the authentic snapshot and on three perturbed ones plus a wrong digest; (b) synthetic history audit paths with indexes up to 2^63-1 and heights up to 64 through Serialize/ParseAuditPath; (c) snapshots, signed snapshots and batches with boundary contents through their JSON codecs; (d) replicated add-commands (0..10^4 digests, odd lengths) and gossip messages (all TTL signs, nil/empty/large payload, From set/unset) through their binary codecs; (e) genuine answers fetched and decoded by the real HTTP client (two construction paths) and verified by 8 goroutines at once, each on its own decoded proofs: verdicts must equal the one-at-a-time verdicts; non-trivial = object with at least one non-zero field; distinct by (kind, shape)."
 	c.Assume = []string{"field equality treats nil and empty byte strings as equal, and the hyper proof value as the version it encodes (the wire form carries the version number, not the padded bytes)"}
 
 	fail := func(cs c13case, key, what string) { c.Violation(key, cs.Kind+": "+what+" ["+cs.Detail+"]", cs) }
@@ -112,6 +112,14 @@ func RunC13(c *lib.Ctx) {
 			d := l.RH.Digests[v]
 			qs := queryVersions(v, cur, false)
 			q := qs[r.Intn(len(qs))]
+			if s%6 == 5 {
+				// a query version beyond the last one: the server answers it (for the last version)
+				q = cur + uint64(r.Pick(1, 2, 7, 1000))
+			}
+			sq := q // the version whose snapshot the answer is checked against
+			if sq > cur {
+				sq = cur
+			}
 			cs := c13case{ID: id, Kind: "membership", Detail: fmt.Sprintf("n=%d event@%d query=%d", p.n, v, q)}
 			proof, err := l.B.QueryDigestMembershipConsistency(hashing.Digest(d), q)
 			if err != nil {
@@ -143,12 +151,12 @@ func RunC13(c *lib.Ctx) {
 				return
 			}
 			// verdict equality
-			auth := &balloon.Snapshot{EventDigest: d, HistoryDigest: l.Snaps[q].HistoryDigest, HyperDigest: l.Snaps[cur].HyperDigest, Version: q}
+			auth := &balloon.Snapshot{EventDigest: d, HistoryDigest: l.Snaps[sq].HistoryDigest, HyperDigest: l.Snaps[cur].HyperDigest, Version: sq}
 			other := uint64(r.Intn(p.n))
 			snaps := []*balloon.Snapshot{
 				auth,
-				{EventDigest: d, HistoryDigest: flip(auth.HistoryDigest), HyperDigest: auth.HyperDigest, Version: q},
-				{EventDigest: d, HistoryDigest: auth.HistoryDigest, HyperDigest: flip(auth.HyperDigest), Version: q},
+				{EventDigest: d, HistoryDigest: flip(auth.HistoryDigest), HyperDigest: auth.HyperDigest, Version: sq},
+				{EventDigest: d, HistoryDigest: auth.HistoryDigest, HyperDigest: flip(auth.HyperDigest), Version: sq},
 				{EventDigest: d, HistoryDigest: l.Snaps[other].HistoryDigest, HyperDigest: l.Snaps[other].HyperDigest, Version: other},
 			}
 			digests := [][]byte{d, l.RH.Digests[other], flip(d)}
